@@ -322,6 +322,7 @@ type facts struct {
 	ResultDefaultPhase            string
 	ResultValues                  map[string]string
 	Config                        *configFacts
+	Options                       optionsFacts
 }
 
 func leanStr(s string) string { return strconv.Quote(s) }
@@ -387,6 +388,7 @@ func main() {
 	}
 
 	f.Config = extractConfig()
+	f.Options = extractOptionsFacts()
 
 	if len(fails) > 0 {
 		for _, m := range fails {
@@ -453,7 +455,9 @@ func main() {
 	sort.Strings(allResults)
 	fmt.Fprintf(&b, "def allResults : List String := %s\n", ls(allResults, f.ResultValues))
 	cronrecFacts(&b) // C02 facts (cronrec.go)
+	jcstatusFacts(&b) // C15 facts (jcstatus.go)
 	f.Config.emit(&b)
+	writeOptionsFacts(&b, f.Options)
 	b.WriteString("\nend Furiko.Facts\n")
 	if len(fails) > 0 {
 		for _, m := range fails {
